@@ -182,6 +182,7 @@ def run_unit(ck, unit):
         # the `sync` feature compiles a second, separately written copy of the Object trait and its impls
         kind = kind[:-len('-sync')]
         prog = ck.program(('sync',))
+        ck.use_sync = True          # replays go to the bridge built with the same feature
     quick = ck.tier == 'quick'
     if kind in ('total', 'resolve'):
         uni = engine.Universe()
@@ -204,7 +205,7 @@ def run_unit(ck, unit):
             if not coverage_complete(ck, uni, res):
                 ck.inconclusive.append('total: coverage')
             panics = [r for r in res if r.kind == 'panic']
-            br = ck.bridge()
+            br = ck.bridge(sync=getattr(ck, 'use_sync', False))
 
             def on_sat(model):
                 kb = S.model_bytes(model, key)
@@ -219,7 +220,7 @@ def run_unit(ck, unit):
                           sample={'form': 'Object::find on symbolic key', 'paths': len(res), 'bytes<=': N}, on_sat=on_sat)
             ck.extra['totality_paths'] = len(res)
             return
-        br = ck.bridge()
+        br = ck.bridge(sync=getattr(ck, 'use_sync', False))
         for key in unit[1]:
             res = ex.explore(find, [Ref(Cont([d]), 0), StrV(key.encode())])
             for r in res:
